@@ -102,6 +102,24 @@ impl RxCtrState {
     }
 }
 
+#[cfg(feature = "verif")]
+impl RxCtrState {
+    /// `(max_ctr, ctr_bitmap)` - read-only projection for the verification harness.
+    pub fn verif_state(&self) -> (u32, u16) {
+        (self.max_ctr, self.ctr_bitmap)
+    }
+}
+
+#[cfg(all(feature = "verif", feature = "groups"))]
+impl GroupCtrStore {
+    /// `(fab_idx, src_nodeid, max_ctr, ctr_bitmap)` of every tracked sender, in table order.
+    pub fn verif_tracked(&self) -> impl Iterator<Item = (u8, u64, u32, u16)> + '_ {
+        self.entries
+            .iter()
+            .map(|e| (e.fab_idx, e.src_nodeid, e.rx_ctr.max_ctr, e.rx_ctr.ctr_bitmap))
+    }
+}
+
 /// Max number of unique group message senders tracked for replay protection.
 #[cfg(feature = "groups")]
 pub const MAX_GROUP_CTR_ENTRIES: usize = 16;
